@@ -10,25 +10,30 @@ import os
 import pathlib
 import shutil
 import tempfile
+from typing import List
 
 from harness.core import sp
 
 PID = "C06"
-RULE = ("cases: (a) layers.e2e — a generated tree of nested dataclasses (depth <= 3, int/str leaves, nested fields with or "
-        "without default_factory), every leaf assigned to a random subset of the five layers with a distinct marker per "
-        "(leaf, source); 0-3 json/yaml/yml files per file layer written to a per-case temp dir; parse() (root-less file "
-        "layout) and ArgumentParser (dest-keyed or root-less, 1-2 destinations); default layer given as default instance, "
-        "set_defaults(**kw) before or after add_arguments; --config_path anywhere in argv; separate malformed streams: "
-        "unknown key at a random depth of a random source, explicit null, scalar for a nested section, _type_, stray "
-        "top-level key, --config_path without the option being enabled; plus an enumerated slice (every subset of the five "
-        "layers for a target leaf of small trees). (b) layers.set_default — DataclassWrapper.set_default sequences on a "
-        "real wrapper, slots and FieldWrapper.default read back. (c) layers.dict_union — utils.dict_union on 1-4 random "
-        "nested dicts with dict/scalar clashes. Non-trivial = an e2e case whose leaves use >= 2 different layers or has a "
-        "nested leaf mentioned in a file, or a unit case with >= 2 sources; distinct by canonical JSON of the case.")
+RULE = ("cases: (a) layers.e2e — a generated tree of nested dataclasses (depth <= 3, leaves int/str/float/bool/List[int], nested "
+        "fields with or without default_factory), every leaf assigned to a random subset of the five layers with a distinct "
+        "marker per (leaf, source); for each leaf at most one source carries the type's FALSY value (0, '', 0.0, False, []) "
+        "so a falsy value always differs from the other layers; 0-3 json/yaml/yml files per file layer in a per-process "
+        "temp dir; parse() (root-less file layout) and ArgumentParser (dest-keyed or root-less, 1-2 destinations); default "
+        "layer given as default instance, set_defaults(**kw) before or after add_arguments; --config_path anywhere in argv; "
+        "separate malformed streams: unknown key at a random depth of a random source, explicit null, scalar for a nested "
+        "section, _type_, stray top-level key, --config_path without the option being enabled; plus an enumerated slice "
+        "(every subset of the five layers for a target leaf of small trees). (b) layers.set_default — "
+        "DataclassWrapper.set_default sequences on a real wrapper, slots and FieldWrapper.default read back. (c) "
+        "layers.dict_union — utils.dict_union on 0-4 random nested dicts with dict/scalar clashes. (d) layers.history "
+        "(oracle only) — 2-3 parses in one process, fresh parser / parse() per round, the SAME file paths rewritten with "
+        "new contents in between; every round must follow that round's contents. Non-trivial = an e2e case whose leaves "
+        "use >= 2 different layers or has a nested leaf mentioned in a file, a history with >= 2 rounds, or a unit case "
+        "with >= 2 sources; distinct by canonical JSON of the case.")
 ASSUMPTIONS = [
     "json / yaml (PyYAML) loaders return the dict that was dumped (stdlib / PyYAML)",
     "dataclass construction semantics (keyword arguments, defaults, default_factory) are those of the stdlib",
-    "argparse converts a command-line token of an int/str option back to the value it was rendered from (property C02); "
+    "argparse converts the command-line tokens of an int/str/float/bool/List[int] option back to the value they were rendered from (property C02); "
     "leaf values in sources have the leaf's type, so argparse's conversion of string defaults is the identity",
     "'mentions' is read as 'assigns a non-None value': the code cannot tell an explicit null from absence",
     "field names are not prefixes of 'config_path' (the temporary --config_path parser would take them as abbreviations)",
@@ -85,13 +90,48 @@ def class_at(cls, path):
     return cur
 
 
-class Mk:
-    def __init__(self, start=100):
-        self.n = start
+TYPES = ["int", "str", "int", "str", "float", "bool", "list"]
+FALSY = {"int": 0, "str": "", "float": 0.0, "bool": False, "list": []}
 
-    def __call__(self, ty):
+
+class Mk:
+    """distinct marker values; with a key (one leaf) at most one of the leaf's sources gets the type's FALSY value,
+    so a falsy value always differs from what the other layers say about that leaf"""
+
+    def __init__(self, rng=None, start=100):
+        self.n = start
+        self.rng = rng
+        self.falsy_used = set()
+
+    def __call__(self, ty, key=None, p_falsy=0.3):
         self.n += 1
-        return self.n if ty == "int" else f"v{self.n}"
+        if self.rng is not None and key is not None and key not in self.falsy_used and self.rng.random() < p_falsy:
+            self.falsy_used.add(key)
+            return type(FALSY[ty])(FALSY[ty])
+        if ty == "int":
+            return self.n
+        if ty == "str":
+            return f"v{self.n}"
+        if ty == "float":
+            return self.n + 0.5
+        if ty == "bool":
+            return True if self.rng is None else self.rng.random() < 0.5
+        return [self.n, self.n + 1]
+
+
+def same(a, b):
+    """equal as typed values (0 == False == 0.0 in Python)"""
+    if type(a) is not type(b):
+        return False
+    if isinstance(a, list):
+        return len(a) == len(b) and all(same(x, y) for x, y in zip(a, b))
+    return a == b
+
+
+def is_leaf_value(v, ty=None):
+    if type(v) in (int, str, float, bool):
+        return True
+    return type(v) is list and all(type(x) is int for x in v)
 
 
 # ------------------------------------------------------------------------------------------------
@@ -115,8 +155,13 @@ def build_cls(spec, name):
     fields = []
     for f in spec:
         if f["k"] == "leaf":
-            ty = int if f["ty"] == "int" else str
-            fld = dataclasses.field() if f["dflt"] is None else dataclasses.field(default=f["dflt"])
+            ty = {"int": int, "str": str, "float": float, "bool": bool, "list": List[int]}[f["ty"]]
+            if f["dflt"] is None:
+                fld = dataclasses.field()
+            elif isinstance(f["dflt"], list):
+                fld = dataclasses.field(default_factory=(lambda v: (lambda: list(v)))(f["dflt"]))
+            else:
+                fld = dataclasses.field(default=f["dflt"])
         else:
             ty = build_cls(f["cls"], name + "_" + f["name"])
             if f["fac"] is None:
@@ -135,7 +180,7 @@ def inst_tree(spec, obj):
         v = getattr(obj, f["name"], None)
         if f["k"] == "nested":
             out[f["name"]] = inst_tree(f["cls"], v) if dataclasses.is_dataclass(v) else {"raw": type(v).__name__}
-        elif v is None or (type(v) in (int, str)):
+        elif v is None or is_leaf_value(v):
             out[f["name"]] = v
         else:
             out[f["name"]] = {"raw": type(v).__name__}
@@ -169,8 +214,11 @@ def gen_cls(rng, depth, mk, p_def=0.6):
         n_leaf = 1
     fields = []
     for n in rng.sample(LEAF_NAMES, n_leaf):
-        ty = rng.choice(["int", "str"])
-        fields.append({"k": "leaf", "name": n, "ty": ty, "dflt": mk(ty) if rng.random() < p_def else None})
+        ty = rng.choice(TYPES)
+        # bool leaves always have a definition default (a bool option without one is C12's business); list leaves never
+        # (a default_factory is called eagerly by the wrapper and would occupy the slot this check observes)
+        has = ty == "bool" or (ty != "list" and rng.random() < p_def)
+        fields.append({"k": "leaf", "name": n, "ty": ty, "dflt": mk(ty, key=("defn", mk.n), p_falsy=0.15) if has else None})
     for n in rng.sample(NEST_NAMES, n_nest):
         sub = gen_cls(rng, depth - 1, mk, p_def)
         r = rng.random()
@@ -215,18 +263,18 @@ def e2e_case(rng, mk, cls_list=None, api=None, force=None, malformed=None, fmt=N
             if "default" in layers and mode != "none":
                 sub = rng.choice(["inst", "kw_after"]) if mode == "inst+kw_after" else mode
                 if sub == "inst":
-                    set_path(inst_kw, path, mk(f["ty"]))
+                    set_path(inst_kw, path, mk(f["ty"], key=(ri, path)))
                 elif sub == "kw_after":
-                    set_path(kw_after, full, mk(f["ty"]))
+                    set_path(kw_after, full, mk(f["ty"], key=(ri, path)))
                 else:
-                    set_path(kw_before, full, mk(f["ty"]))
+                    set_path(kw_before, full, mk(f["ty"], key=(ri, path)))
             for name, files in (("ctor", ctor), ("cli", cli)):
                 if name in layers and files:
                     idx = [i for i in range(len(files)) if rng.random() < 0.5] or [rng.randrange(len(files))]
                     for i in idx:
-                        set_path(files[i]["data"], path if rootless else full, mk(f["ty"]))
+                        set_path(files[i]["data"], path if rootless else full, mk(f["ty"], key=(ri, path)))
             if "cmd" in layers:
-                set_path(cmd, full, mk(f["ty"]))
+                set_path(cmd, full, mk(f["ty"], key=(ri, path)))
         if inst_kw is not None:
             # the user's own constructor call must succeed: give a value to everything without a default
             def complete(spec, kw):
@@ -245,6 +293,48 @@ def e2e_case(rng, mk, cls_list=None, api=None, force=None, malformed=None, fmt=N
     if malformed:
         inject(rng, case, malformed, mk)
     return {"op": "layers.e2e", "case": case}
+
+
+def remark(rng, tree, mk):
+    """the same file rewritten: every leaf value replaced by a fresh one of its type, some keys dropped"""
+    out = {}
+    for k, v in tree.items():
+        if isinstance(v, dict):
+            out[k] = remark(rng, v, mk)
+        elif rng.random() < 0.15:
+            continue
+        elif isinstance(v, bool):
+            out[k] = not v
+        elif isinstance(v, int):
+            out[k] = mk("int")
+        elif isinstance(v, float):
+            out[k] = mk("float")
+        elif isinstance(v, str):
+            out[k] = mk("str")
+        elif isinstance(v, list):
+            out[k] = mk("list")
+        else:
+            out[k] = v
+    return out
+
+
+def history_case(rng, mk):
+    """2-3 parses in one process, each with a fresh parser, the SAME file paths rewritten in between"""
+    while True:
+        first = e2e_case(rng, mk)["case"]
+        if first["ctor_files"] or first["cli_files"]:
+            break
+    if first["ctor_form"] == "tuple":
+        first["ctor_form"] = "list_str"
+    rounds = [first]
+    for _ in range(rng.choice([1, 1, 2])):
+        nxt = json.loads(json.dumps(rounds[-1]))
+        for f in nxt["ctor_files"] + (nxt["cli_files"] or []):
+            f["data"] = remark(rng, f["data"], mk)
+        if rng.random() < 0.3:
+            nxt["cmd"] = {}
+        rounds.append(nxt)
+    return {"op": "layers.history", "model": False, "case": {"rounds": rounds}}
 
 
 def sources_of(case):
@@ -312,7 +402,7 @@ SMALL_TREES = [
     [{"k": "leaf", "name": "a", "ty": "str"}, {"k": "nested", "name": "sub", "cls": [{"k": "leaf", "name": "b", "ty": "int"}]}],
     [{"k": "leaf", "name": "x", "ty": "int"},
      {"k": "nested", "name": "m", "cls": [{"k": "leaf", "name": "y", "ty": "str"},
-                                           {"k": "nested", "name": "g", "cls": [{"k": "leaf", "name": "k", "ty": "int"},
+                                           {"k": "nested", "name": "g", "cls": [{"k": "leaf", "name": "k", "ty": "float"},
                                                                                  {"k": "leaf", "name": "tag", "ty": "str"}]}]}],
 ]
 LAYERS5 = ["defn", "default", "ctor", "cli", "cmd"]
@@ -326,7 +416,8 @@ def small_tree(rng, mk, shape, target, with_defn):
             if f["k"] == "leaf":
                 p = pre + (f["name"],)
                 has = with_defn if p == target else rng.random() < 0.6
-                out.append({"k": "leaf", "name": f["name"], "ty": f["ty"], "dflt": mk(f["ty"]) if has else None})
+                out.append({"k": "leaf", "name": f["name"], "ty": f["ty"],
+                            "dflt": mk(f["ty"], key=("defn", mk.n), p_falsy=0.2) if has else None})
             else:
                 out.append({"k": "nested", "name": f["name"], "fac": None, "cls": go(f["cls"], pre + (f["name"],))})
         return out
@@ -362,7 +453,7 @@ def _base():
 
 def gen(rng, tier):
     _base()
-    mk = Mk()
+    mk = Mk(rng)
     # (c) dict_union
     n_u = 300 if tier == "quick" else 4000
     for _ in range(n_u):
@@ -388,7 +479,7 @@ def gen(rng, tier):
             v = {}
             for path, f in leaf_paths(cls):
                 if rng.random() < 0.4:
-                    set_path(v, path, mk(f["ty"]) if rng.random() < 0.9 else None)
+                    set_path(v, path, mk(f["ty"], key=path) if rng.random() < 0.9 else None)
             r = rng.random()
             tmp = {"api": "parser", "nest": "WITHOUT_ROOT", "regs": [{"dest": "w", "cls": cls, "inst": None}], "kw_before": [],
                    "kw_after": [], "ctor_files": [{"fmt": "json", "data": v}], "cli_files": None}
@@ -413,6 +504,9 @@ def gen(rng, tier):
                     cls = small_tree(rng, mk, shape, target, "defn" in chosen)
                     yield e2e_case(rng, mk, cls_list=[cls], api=api, force={(0, target): chosen - {"defn"}},
                                    fmt=rng.choice(FMTS))
+    # (d) histories: the same file paths rewritten between parses (oracle only)
+    for _ in range(60 if tier == "quick" else 1500):
+        yield history_case(rng, mk)
     # (a) random scenarios, plus the malformed streams
     n_e = 1200 if tier == "quick" else 20000
     for _ in range(n_e):
@@ -439,8 +533,8 @@ def gen(rng, tier):
 # real code
 
 
-def _write(td, name, f):
-    p = os.path.join(td, f"{os.getpid()}_{next(_SEQ)}_{name}.{f['fmt']}")
+def _write(td, name, f, fixed=None):
+    p = os.path.join(td, f"{fixed}_{name}.{f['fmt']}" if fixed else f"{os.getpid()}_{next(_SEQ)}_{name}.{f['fmt']}")
     with open(p, "w") as fh:
         if f["fmt"] == "json":
             json.dump(f["data"], fh)
@@ -458,7 +552,7 @@ def _walk_wrapper(spec, w, get):
     for f in spec:
         if f["k"] == "leaf":
             v = get(by_name[f["name"]])
-            out[f["name"]] = v if (v is None or type(v) in (int, str) or isinstance(v, dict)) else {"raw": type(v).__name__}
+            out[f["name"]] = v if (v is None or is_leaf_value(v) or isinstance(v, dict)) else {"raw": type(v).__name__}
         else:
             out[f["name"]] = _walk_wrapper(f["cls"], kids[f["name"]], get)
     return out
@@ -494,10 +588,14 @@ def impl(case):
                 "defaults": _walk_wrapper(c["cls"], w, lambda f: f.default)}
     if op == "layers.e2e":
         return impl_e2e(c)
+    if op == "layers.history":
+        stem = f"{os.getpid()}_{next(_SEQ)}_h"
+        return {"o": "rounds", "rounds": [impl_e2e(r, fixed=stem) for r in c["rounds"]]}
     raise ValueError(op)
 
 
-def impl_e2e(c):
+def impl_e2e(c, fixed=None):
+    """fixed: file-name stem shared by the rounds of a history case (the same paths are rewritten between parses)"""
     import simple_parsing
     from simple_parsing import ArgumentParser
 
@@ -508,9 +606,9 @@ def impl_e2e(c):
     td = _base()
     written = []
     try:
-        ctor_paths = [_write(td, f"ctor{i}", f) for i, f in enumerate(c["ctor_files"])]
+        ctor_paths = [_write(td, f"ctor{i}", f, fixed) for i, f in enumerate(c["ctor_files"])]
         written += ctor_paths
-        cli_paths = None if c["cli_files"] is None else [_write(td, f"cli{i}", f) for i, f in enumerate(c["cli_files"])]
+        cli_paths = None if c["cli_files"] is None else [_write(td, f"cli{i}", f, fixed) for i, f in enumerate(c["cli_files"])]
         written += cli_paths or []
         form = c["ctor_form"]
         if not ctor_paths:
@@ -526,7 +624,7 @@ def impl_e2e(c):
         else:
             config_path = tuple(ctor_paths)
         # option strings of the leaves that get a command-line value, read off a separate parser
-        argv_fields = []
+        argv_groups = []
         if c["cmd"]:
             def probe():
                 p = ArgumentParser(nested_mode=nest)
@@ -542,16 +640,12 @@ def impl_e2e(c):
                 for path, f in leaf_paths(r["cls"]):
                     v, ok = get_path(c["cmd"], (r["dest"],) + path)
                     if ok:
-                        argv_fields += [opts[".".join((r["dest"],) + path)], str(v)]
+                        toks = [str(x) for x in v] if isinstance(v, list) else [repr(v) if isinstance(v, float) else str(v)]
+                        argv_groups.append([opts[".".join((r["dest"],) + path)]] + toks)
         name = c["add_arg"] if isinstance(c["add_arg"], str) else "config_path"
         cli_part = [] if cli_paths is None else [f"--{name}"] + cli_paths
-        if c["cli_pos"] == "front":
-            argv = cli_part + argv_fields
-        elif c["cli_pos"] == "back":
-            argv = argv_fields + cli_part
-        else:
-            k = (len(argv_fields) // 4) * 2
-            argv = argv_fields[:k] + cli_part + argv_fields[k:]
+        k = {"front": 0, "back": len(argv_groups)}.get(c["cli_pos"], len(argv_groups) // 2)
+        argv = [t for g in argv_groups[:k] for t in g] + cli_part + [t for g in argv_groups[k:] for t in g]
         sp.reset_globals()
 
         def go():
@@ -590,6 +684,8 @@ def impl_e2e(c):
 def enc(v):
     if isinstance(v, dict):
         return {"d": [[k, enc(x)] for k, x in v.items()]}
+    if isinstance(v, (bool, float, list)):
+        return {"a": json.dumps(v)}   # opaque scalar for the model (it only distinguishes None / dict / other)
     return v
 
 
@@ -597,7 +693,7 @@ def enc_cls(cls):
     out = []
     for f in cls:
         if f["k"] == "leaf":
-            out.append({"k": "leaf", "name": f["name"], "dflt": f["dflt"]})
+            out.append({"k": "leaf", "name": f["name"], "dflt": enc(f["dflt"])})
         else:
             out.append({"k": "nested", "name": f["name"], "fac": None if f["fac"] is None else enc(f["fac"]), "cls": enc_cls(f["cls"])})
     return out
@@ -624,6 +720,8 @@ def model_case(case, obs):
 
 def project(case, obs):
     op = case["op"]
+    if op == "layers.history":
+        return obs
     if obs["o"] == "raise":
         return {"o": "raise", "exc": obs.get("exc")}
     if obs["o"] == "exit":
@@ -822,8 +920,14 @@ def oracle(case, obs):
         for path, f in leaf_paths(c["cls"]):
             exp, layer = expected_leaf(tmp, 0, path)
             got, _ = get_path(obs["defaults"], path)
-            if exp is not None and got not in exp:
+            if exp is not None and not any(same(got, e) for e in exp):
                 fails.append({"clause": "priority", "detail": f"FieldWrapper.default of {'.'.join(path)} is {got!r}, the highest source ({layer}) says {exp!r}"})
+        return fails
+    if op == "layers.history":
+        for i, (rc, ro) in enumerate(zip(c["rounds"], obs["rounds"])):
+            for f in oracle({"op": "layers.e2e", "case": rc}, ro):
+                fails.append({"clause": "history", "round": i, "inner": f.get("clause"),
+                              "detail": f"parse #{i + 1} of {len(c['rounds'])} (same file paths, contents rewritten): " + f.get("detail", "")})
         return fails
     # ---- layers.e2e
     fx = facts(c)
@@ -846,7 +950,7 @@ def oracle(case, obs):
             if obs["o"] != "ok":
                 continue
             got, ok = get_path(obs["v"], (r["dest"],) + path)
-            if not ok or got not in exp or type(got) is not type(exp[0]):
+            if not ok or not any(same(got, e) for e in exp):
                 fails.append({"clause": "priority", "leaf": [ri] + list(path), "got": got, "exp": exp, "layer": layer,
                               "detail": f"{r['dest']}.{'.'.join(path)} = {got!r}; the highest-priority source that mentions it ({layer}) says {exp!r}"})
     if obs["o"] != "ok" and not free:
@@ -871,7 +975,7 @@ def _null_erases(case, obs, fail):
         ri, *path = fail["leaf"]
         if (dests[ri],) + tuple(path) not in nulls:
             return False
-        return erased_value(c, ri, tuple(path)) == fail["got"]
+        return same(erased_value(c, ri, tuple(path)), fail["got"])
     if fail.get("clause") == "unexpected-error" and obs["o"] == "exit" and obs.get("code") == 2:
         return any(erased_value(c, dests.index(p[0]), tuple(p[1:])) is None for p in nulls)
     return False
@@ -891,6 +995,8 @@ FINDINGS = {"C06-null-erases": _null_erases, "C06-ctor-tuple": _ctor_tuple}
 
 def nontrivial(case, obs):
     op, c = case["op"], case["case"]
+    if op == "layers.history":
+        return len(c["rounds"]) >= 2
     if op == "layers.dict_union":
         return len(c["dicts"]) >= 2
     if op == "layers.set_default":
@@ -908,6 +1014,8 @@ def nontrivial(case, obs):
 
 def tags(case, obs):
     op, c = case["op"], case["case"]
+    if op == "layers.history":
+        return [f"op:{op}", f"rounds:{len(c['rounds'])}"] + sorted({"round-out:" + r["o"] for r in obs["rounds"]})
     t = [f"op:{op}", "out:" + (obs["o"] if obs["o"] != "raise" else f"raise:{obs.get('exc')}")]
     if op != "layers.e2e":
         return t
@@ -930,6 +1038,15 @@ def tags(case, obs):
 
 
 def shrink(case):
+    if case["op"] == "layers.history":
+        rs = case["case"]["rounds"]
+        if len(rs) > 2:
+            for i in range(len(rs)):
+                yield {"op": case["op"], "model": False, "case": {"rounds": rs[:i] + rs[i + 1:]}}
+        for key in ("cmd", "kw_before", "kw_after"):
+            if any(r[key] for r in rs):
+                yield {"op": case["op"], "model": False, "case": {"rounds": [dict(r, **{key: ({} if key == "cmd" else [])}) for r in rs]}}
+        return
     if case["op"] != "layers.e2e":
         return
     c = case["case"]
